@@ -836,6 +836,10 @@ func (c *Ctx) deriveLabels(v ssa.Value, seeds map[ssa.Value]string, seen map[ssa
 		c.deriveLabels(x.X, seeds, seen, out, depth+1)
 	case *ssa.MakeInterface:
 		c.deriveLabels(x.X, seeds, seen, out, depth+1)
+	case *ssa.TypeAssert:
+		c.deriveLabels(x.X, seeds, seen, out, depth+1)
+	case *ssa.ChangeInterface:
+		c.deriveLabels(x.X, seeds, seen, out, depth+1)
 	case *ssa.IndexAddr:
 		c.deriveLabels(x.X, seeds, seen, out, depth+1)
 	case *ssa.Index:
@@ -1008,6 +1012,58 @@ func (c *Ctx) lenRel(n, vals ssa.Value, depth int) bool {
 	case *ssa.Extract:
 		ve, ok := vals.(*ssa.Extract)
 		if !ok || ve.Tuple != x.Tuple {
+			// n, ok := count(vals): a library helper handed the values, every return of which answers with the
+			// length of its argument seen through a type assertion (or with a constant beside a false flag)
+			if call, isCall := x.Tuple.(*ssa.Call); isCall {
+				if f := call.Common().StaticCallee(); f != nil && isLibFn(f) && f.Blocks != nil && len(call.Common().Args) == 1 && len(f.Params) == 1 && strip(call.Common().Args[0]) == vals {
+					fromParam := func(v ssa.Value) bool {
+						for i := 0; i < 6; i++ {
+							switch y := v.(type) {
+							case *ssa.Parameter:
+								return y == f.Params[0]
+							case *ssa.TypeAssert:
+								v = y.X
+							case *ssa.Extract:
+								ta, isTA := y.Tuple.(*ssa.TypeAssert)
+								if !isTA || y.Index != 0 {
+									return false
+								}
+								v = ta.X
+							case *ssa.MakeInterface:
+								v = y.X
+							case *ssa.ChangeInterface:
+								v = y.X
+							default:
+								return false
+							}
+						}
+						return false
+					}
+					rs := returnsOf(f)
+					okAll := len(rs) > 0
+					for _, r := range rs {
+						rv := r.Results[x.Index]
+						if lc, isLen := rv.(*ssa.Call); isLen {
+							if bi, isB := lc.Common().Value.(*ssa.Builtin); isB && bi.Name() == "len" && len(lc.Common().Args) == 1 && fromParam(lc.Common().Args[0]) {
+								continue
+							}
+						}
+						// a refusal: a constant count next to a false flag
+						refusal := false
+						if _, isK := rv.(*ssa.Const); isK {
+							for j, o := range r.Results {
+								if k, isKB := o.(*ssa.Const); j != x.Index && isKB && k.Value != nil && k.Value.Kind() == constant.Bool && !constant.BoolVal(k.Value) {
+									refusal = true
+								}
+							}
+						}
+						if !refusal {
+							okAll = false
+						}
+					}
+					return okAll
+				}
+			}
 			return false
 		}
 		call, ok := x.Tuple.(*ssa.Call)
@@ -1084,10 +1140,15 @@ func (c *Ctx) gateAt(fn *ssa.Function, at *ssa.BasicBlock, seeds map[ssa.Value]s
 				sub := map[ssa.Value]string{}
 				for i, arg := range call.Common().Args {
 					al := c.labelsOf(arg, seeds)
+					if os.Getenv("D6DEBUG") != "" {
+						fmt.Println("D6DEBUG call", fname(f), "arg", i, al)
+					}
 					if i >= len(f.Params) {
 						continue
 					}
 					switch {
+					case al["count"] && isIntType(arg.Type()):
+						sub[f.Params[i]] = "count" // an integer derived from the values is their number, not the values
 					case al["values"]:
 						sub[f.Params[i]] = "values"
 					case al["count"]:
